@@ -41,3 +41,15 @@ static void verif_mkset(void)
 PRINTER_HARNESS(hwloc_bitmap_snprintf)
 PRINTER_HARNESS(hwloc_bitmap_list_snprintf)
 PRINTER_HARNESS(hwloc_bitmap_taskset_snprintf)
+
+/* asprintf variants: both passes run on the real printers (under their loop invariants); the result block is the
+ * function's own malloc(len+1): any store or load outside it is a bounds violation. */
+#define ASPRINTF_HARNESS(fn) void hp_##fn(void) { char *str = (char *)0; int r; \
+  VERIF_GHOSTS(); verif_mkset(); verif_buf = (char *)0; verif_snprintf_neg = 0; \
+  r = fn(&str, &verif_set); \
+  __CPROVER_assert(r >= -1, "returns a length or -1"); \
+  __CPROVER_assert(r < 0 || str != (char *)0, "a string is returned on success"); \
+  VERIF_CANARY(); }
+ASPRINTF_HARNESS(hwloc_bitmap_asprintf)
+ASPRINTF_HARNESS(hwloc_bitmap_list_asprintf)
+ASPRINTF_HARNESS(hwloc_bitmap_taskset_asprintf)
